@@ -161,7 +161,7 @@ void vf_run_case(Ctx& c, uint64_t index) {
     if (ok && err == AJ::DeserializationError::NoMemory && er.err != MpErr::Ok) {
       MVal partial; std::string pre = b.substr(0, er.pos); (void)partial;
       bool huge = false;
-      for (size_t i = 0; i + 4 < b.size() && i < er.pos + 8; i++) { unsigned char h = (unsigned char)b[i]; if (h == 0xdb || h == 0xc6 || h == 0xc9 || h == 0xdd || h == 0xdf || h == 0xda || h == 0xc5 || h == 0xc8) huge = true; }
+      for (size_t i = 0; i < b.size() && i < er.pos + 8; i++) { unsigned char h = (unsigned char)b[i]; if (h == 0xdb || h == 0xc6 || h == 0xc9 || h == 0xdd || h == 0xdf || h == 0xda || h == 0xc5 || h == 0xc8) huge = true; }
       if (!huge && kMaxStringLength >= 65535) ok = false;
     }
     if (!ok) { c.violation("corruption-misclassified", std::string("library returned ") + err_name(err) + ", reference decoder says " + mperr_name(er.err) + " at byte " + std::to_string(er.pos) + " (expected " + want + ")", w2); break; }
